@@ -95,7 +95,11 @@ func (rs *RealServer) Do(raw string) (*RealResp, error) {
 		}
 		io.WriteString(cli, r)
 	}()
-	resp, err := http.ReadResponse(bufio.NewReader(cli), req)
+	br := bufio.NewReader(cli)
+	resp, err := http.ReadResponse(br, req)
+	for err == nil && resp.StatusCode >= 100 && resp.StatusCode <= 199 && resp.StatusCode != http.StatusSwitchingProtocols {
+		resp, err = http.ReadResponse(br, req) // informational responses precede the final one
+	}
 	if err != nil {
 		return &RealResp{ReadErr: "no response: " + err.Error()}, nil
 	}
